@@ -304,9 +304,30 @@ fn large_graph_case(ctx: &Ctx, st: &mut Stats, n: usize, density_pct: u64, undir
     let names: Vec<String> = (0..n).map(|i| format!("n{}", i)).collect();
     let mut adj = vec![vec![false; n]; n];
     let mut lines: Vec<String> = Vec::new();
+    // density > 100 means: a complete graph from which exactly (density - 100) vertex PAIRS are
+    // taken away — so that the number of non-adjacent pairs is exactly a round number (256, 4096, ..)
+    let all_pairs = n * (n - 1) / 2;
+    let remove_exactly = if density_pct > 100 { Some((density_pct - 100) as usize) } else { None };
+    let mut removed = 0usize;
+    let mut seen_pairs = 0usize;
     for i in 0..n {
         for j in (i + 1)..n {
-            if rng.below(100) < density_pct {
+            seen_pairs += 1;
+            let keep = match remove_exactly {
+                // remove each remaining pair with the probability that makes the total come out exactly
+                Some(r) => {
+                    let left_pairs = all_pairs - seen_pairs + 1;
+                    let need = r.min(all_pairs) - removed;
+                    if rng.below(left_pairs as u64) < need as u64 {
+                        removed += 1;
+                        false
+                    } else {
+                        true
+                    }
+                }
+                None => rng.below(100) < density_pct,
+            };
+            if keep {
                 adj[i][j] = true;
                 adj[j][i] = true;
                 if undirected {
@@ -382,6 +403,26 @@ fn large_graph_case(ctx: &Ctx, st: &mut Stats, n: usize, density_pct: u64, undir
         let r: Vec<usize> = (0..size).map(|_| rng.usize(n)).collect::<std::collections::BTreeSet<_>>().into_iter().collect();
         sets.push(r);
     }
+    // (the graph's vertices are the names that occur in some record: others are not part of the input)
+    let mut known = vec![false; n];
+    for i in 0..n {
+        for j in 0..n {
+            if i != j && adj[i][j] {
+                known[i] = true;
+                known[j] = true;
+            }
+        }
+    }
+    for l in &lines {
+        if let Some((a, b)) = l.split_once(',') {
+            for v in [a, b] {
+                if let Some(ix) = v.strip_prefix('n').and_then(|d| d.parse::<usize>().ok()) {
+                    known[ix] = true;
+                }
+            }
+        }
+    }
+    let sets: Vec<Vec<usize>> = sets.into_iter().map(|s| s.into_iter().filter(|v| known[*v]).collect()).collect();
     let (mut cliques, mut others) = (0u64, 0u64);
     for s in &sets {
         let mut asg = vec![false; prob.names.len()];
@@ -418,9 +459,9 @@ pub fn run(ctx: &Ctx) -> (Stats, Spec) {
     st.exhaustive.push(if thorough { "all 64 digraphs on 3 vertices and all 4096 on 4 vertices x {-u} x {-a}".into() } else { "all 64 digraphs on 3 vertices (and every 4th on 4 vertices) x {-u} x {-a}".into() });
     // large graphs, --all only (see large_graph_case)
     let large: Vec<(usize, u64, bool)> = if thorough {
-        vec![(17, 50, true), (33, 40, false), (65, 30, true), (130, 90, false), (257, 95, true), (300, 10, true), (300, 50, false), (100, 70, true), (64, 60, false), (200, 98, true)]
+        vec![(17, 50, true), (33, 40, false), (65, 30, true), (130, 90, false), (257, 95, true), (300, 10, true), (300, 50, false), (100, 70, true), (64, 60, false), (200, 98, true), (100, 100 + 4096, true), (70, 100 + 2048, false), (100, 100 + 4095, true), (100, 100 + 4097, true), (40, 100 + 256, true), (130, 100 + 8192, true), (95, 100 + 4096, false), (363, 100 + 65536, true), (40, 100 + 512, false)]
     } else {
-        vec![(17, 50, true), (40, 40, false), (65, 30, true), (130, 90, false), (257, 95, true), (300, 10, true)]
+        vec![(17, 50, true), (40, 40, false), (65, 30, true), (130, 90, false), (257, 95, true), (300, 10, true), (100, 100 + 4096, true), (70, 100 + 2048, false), (100, 100 + 4097, true), (40, 100 + 256, true), (363, 100 + 65536, true)]
     };
     let parts = util::par_jobs(large.len(), |j| {
         let mut s = Stats::new();
